@@ -65,12 +65,14 @@ section .text
 	%xdefine	arg3 rdx
 
 	%xdefine	arg1_low32 r8d
+	%xdefine	arg3_low32 edx
 %else
 	%xdefine	arg1 rdx
 	%xdefine	arg2 rdi
 	%xdefine	arg3 rsi
 
 	%xdefine	arg1_low32 edx
+	%xdefine	arg3_low32 esi
 %endif
 
 align 16
@@ -92,6 +94,9 @@ FUNCTION_NAME:
 	vmovdqa		[rsp + 16*8], xmm14
 	vmovdqa		[rsp + 16*9], xmm15
 %endif
+
+	; len is a 32-bit int: the upper half of its register is unspecified
+	movsxd		arg3, arg3_low32
 
 	; check if smaller than 256B
 	cmp		arg3, 256
